@@ -133,9 +133,10 @@ C09_WarningsDescribeTheRow(feed, r, acc, warnOk) ==
             /\ InRange(r.warnings[i].row, Rows(feed, r.warnings[i].file))
             /\ r.warnings[i].row \notin Range(acc[r.warnings[i].file])
             /\ warnOk[i]
-         \/ (* the header itself lacks a required column: the warning is about row 0 and shows the header *)
-            /\ r.warnings[i].file = "agency.txt:warnings.MissingColumns" /\ r.warnings[i].row = 0
-            /\ MissingCols(feed, "agency.txt") # {}
+         \/ (* the header of some file lacks a required column: the warning is about row 0 and shows that header *)
+            /\ r.warnings[i].row = 0
+            /\ \E f \in Range(Files) : /\ r.warnings[i].file = f \o ":warnings.MissingColumns"
+                                       /\ MissingCols(feed, f) # {}
             /\ warnOk[i]
 
 (* ------------------------------------------------------------------ C10 *)
